@@ -30,7 +30,7 @@ type c07Case struct {
 	Mut  gen.Mut     `json:"mut"`
 }
 
-var c07Kinds = []string{"random", "overlong-varint", "len-zero", "len-over", "len-huge", "truncated", "not-proto", "empty-pid", "bad-utf8"}
+var c07Kinds = []string{"random", "overlong-varint", "len-zero", "len-over", "len-huge", "truncated", "not-proto", "empty-pid", "bad-utf8", "inner-overrun", "inner-overrun"}
 
 func genC07(t *rapid.T) c07Case {
 	c := c07Case{Mode: rapid.SampledFrom([]string{"valid", "valid", "malformed"}).Draw(t, "mode")}
@@ -172,6 +172,13 @@ func checkC07(c c07Case) (o vstat.Outcome) {
 	case "truncated":
 		cut := 1 + c.Mut.Pos%(len(good)-1)
 		stream = good[:cut]
+	case "inner-overrun":
+		// a consistent outer length around a body whose protocol-id field announces more bytes than the body holds
+		pid := strings.Repeat("q", 2+c.PidLen%100)
+		keep := 1 + c.Mut.Pos%(len(pid)-1)
+		body := append([]byte{0x0a, byte(len(pid))}, pid[:keep]...)
+		stream = append([]byte{byte(len(body))}, body...)
+		stream = append(stream, payload...)
 	case "not-proto":
 		body := append([]byte{0xff, 0xff, 0xff}, c.Raw...)
 		stream = append([]byte{byte(len(body))}, body...)
